@@ -217,8 +217,7 @@ func newStep(maxBuf int, events []int, freeOracles bool, maxFail int) *stepCtx {
 		e.doEvent(x.event)
 	}
 	// goroutines the event spawned: delayed close after an announce, delayed close after abort
-	zzvrt.RunSpawned("CloseConnection$1")
-	zzvrt.RunSpawned("handleState$1")
+	zzvrt.RunSpawnedExcept("setHandshakeTimer") // delayed-close closures; timer goroutines stay parked
 	zzvrt.Fact("edge", b2i(x.client), x.pre, int(c.smeState))
 	return x
 }
